@@ -97,6 +97,13 @@ def line_text(l):
         # a compound statement on one physical line
         head = "if %s: " % l["c"] if k == "ifa" else "while _w(%d, %s): " % (n, l["c"])
         return head + "%s = (%d, %s)" % (l["t"], n, group_text(l["r"])), spans
+    if k == "cmp":
+        # the comprehension variable t shadows the outer name inside the comprehension only
+        return "print((%d, tuple([%s for %s in %s])))" % (n, l["t"], l["t"], group_text(l["r"])), spans
+    if k == "try":
+        return "try:", spans
+    if k == "exc":
+        return "except NameError:", spans
     if k == "if":
         return "if %s:" % l["c"], spans
     if k == "else":
@@ -243,6 +250,21 @@ def requests_for(rec, rnd, tier):
     variants = [v for v in VARIANTS if not (v == "module" and has_ret)]
     reqs = []
     dense = tier == "thorough"
+    if tier == "tries":
+        # try / except focused bodies: every line range in function and module variant, every expression request
+        for r in rec["regions"]:
+            if r["cls"] != "unbound":
+                for v in (["func"] if has_ret else ["func", "module"]):
+                    reqs.append({"what": "stmts", "i": r["i"], "j": r["j"], "cls": r["cls"],
+                                 "params": sorted(r["params"]), "results": sorted(r["results"]),
+                                 "written": sorted(r["written"]), "shapes": r["shapes"],
+                                 "variant": v, "global_": False, "similar": False, "kind": None})
+        for e in rec["exprs"]:
+            if e["cls"] != "unbound" and not (e["sim"] and e["sub"] == "name") and e["via"] == "var":
+                reqs.append({"what": "expr", "i": e["i"], "sub": e["sub"], "v": e["v"], "via": e["via"],
+                             "cls": e["cls"], "variant": rnd.choice(["func", "module"]) if not has_ret else "func",
+                             "global_": False, "similar": e["sim"], "kind": None, "reads": sorted(e["reads"])})
+        return reqs
     if tier == "loops":
         # control-flow focused bodies: every line range, plain function variant, default options
         for r in rec["regions"]:
@@ -574,6 +596,16 @@ def main(tier):
     states += res.distinct
     transitions += res.generated
 
+    # 1c. try / except: every body of <= 5 lines over {try, except, assign, print, if} reading only `a`
+    progs_try = {}
+    res = run_tlc("bfs5-try", base_constants(MaxLines=5, Kinds=tlc.Sub("MCKindsTry"), InitSets=tlc.Sub("MCInitNoneA"),
+                                             ReadSets=tlc.Sub("MCReadsA"), ExportMin=4), progs_try)
+    tlc_runs["bfs5-try"] = res.summary()
+    if not res.ok:
+        return tlc_failed(res, "bfs5-try")
+    states += res.distinct
+    transitions += res.generated
+
     # 2. random simulation of bodies of 4..MaxLines lines (invariants checked on every state)
     scale = float(os.environ.get("VERIF_C03_SCALE", "1"))     # only used to enumerate finding classes
     nlines = 6 if quick else 7
@@ -622,6 +654,10 @@ def main(tier):
         items.append({"rec": progs_sim[k], "reqs": requests_for(progs_sim[k], rnd, tier)})
     for k in sorted(progs_loop):
         items.append({"rec": progs_loop[k], "reqs": requests_for(progs_loop[k], rnd, "loops")})
+    try_keys = sorted(k for k in progs_try if any(l["k"] == "try" for l in progs_try[k]["lines"]))
+    rnd.shuffle(try_keys)
+    for k in try_keys[:int((700 if quick else 6000) * scale)]:
+        items.append({"rec": progs_try[k], "reqs": requests_for(progs_try[k], rnd, "tries")})
     items = [it for it in items if it["reqs"]]
     for n, it in enumerate(items):
         it["keep_new"] = n % 97 == 0
@@ -679,7 +715,7 @@ def main(tier):
         "traces_validated_against_impl": requests,
         "bodies_replayed": replayed,
         "bodies_from_tlc": {"exhaustive": len(progs_bfs), "simulated": len(progs_sim),
-                            "exhaustive_control_flow": len(progs_loop)},
+                            "exhaustive_control_flow": len(progs_loop), "exhaustive_try_except": len(progs_try)},
         "samples": samples,
         "exhaustive": False,
         "distinct_nontrivial": len(nontrivial),
